@@ -348,6 +348,14 @@ fn parse_src(
             Kind::FeatureNode => {
                 parser.start_node(Kind::SourceFile);
                 super::grammar::eat_feature_block_items(&mut parser);
+                // anything left over is not valid here: say so, and keep it in the
+                // tree so that the rest of the file is not dropped silently
+                if !parser.at_eof() {
+                    parser.err("Not valid in a file included from a feature block");
+                    while !parser.at_eof() {
+                        parser.eat_raw();
+                    }
+                }
                 parser.eat_trivia();
                 parser.finish_node();
             }
